@@ -40,7 +40,7 @@ HIST = {
 def items(tier):
     q = tier == "quick"
     out = []
-    temps = ["poisson-linsolve", "linsolve-dense", "linsolve-classchange", "linsolve-diagchange", "overhang", "densityfilter", "filterconv",
+    temps = ["poisson-linsolve", "linsolve-dense", "linsolve-classchange", "linsolve-diagchange", "linsolve-patternchange", "overhang", "densityfilter", "filterconv",
              "sysofeq", "statcond", "assemble-const", "aggregation-active"]
     if not q:
         temps += ["linsolve-dense-lda", "linsolve-classchange-lda", "linsolve-dense3"]
@@ -83,14 +83,27 @@ def make(V, template, ncyc=3):
     if template.startswith("linsolve"):
         n = 3 if template.endswith("dense3") else 2
         sA, sb = pym.Signal("A"), pym.Signal("b")
-        m = pym.LinSolve([sA, sb])
-        m.use_lda_solver = template.endswith("-lda")
+        if "patternchange" in template:
+            # fixed solver class (so that D11's once-only solver choice does not interfere), LDAWrapper on (default)
+            m = pym.LinSolve([sA, sb], solver=pym.solvers.SolverDenseLU())
+        else:
+            m = pym.LinSolve([sA, sb])
+            m.use_lda_solver = template.endswith("-lda")
         m3 = pym.EinSum([m.sig_out[0], sb], expression="i,i->")
         net = pym.Network(m, m3)
 
         def setter(k):
             A = V.reals("A%d" % k, (n, n))
-            if "diagchange" in template:
+            if "patternchange" in template:
+                # symmetric in every cycle; decoupled (diagonal) in the first cycle, coupled afterwards
+                A = np.array(A, dtype=object if V.symbolic else float)
+                A[1, 0] = A[0, 1]
+                if k == 1:
+                    A[0, 1] = A[1, 0] = (0 if V.symbolic else 0.0)
+                A = wrap(A) if V.symbolic else A
+                if V.symbolic and k != 1:
+                    V.assume(A[0, 1] != 0)
+            elif "diagchange" in template:
                 if k == 1:      # first cycle: diagonal matrix (SolverDiagonal)
                     A = np.array(A, dtype=object if V.symbolic else float)
                     A[0, 1] = A[1, 0] = (0 if V.symbolic else 0.0)
@@ -108,7 +121,7 @@ def make(V, template, ncyc=3):
                 else:
                     if V.symbolic:
                         V.assume(A[0, 1] != A[1, 0], "later cycles: non-symmetric matrix")
-            else:
+            elif "patternchange" not in template:
                 if V.symbolic:
                     V.assume(A[0, 1] != A[1, 0], "general class: non-symmetric matrix")
             assume_nonsingular(V, A, "A%d" % k)
